@@ -442,6 +442,11 @@ def run_prng(case, res):
         got_ready = sim.inspect('ready') if ready is not None else None
         was_faulted = model.faulted
         exp_ready, exp_rand, note = model.expect(c, is_pulse)
+        if is_pulse and ready is not None and kind != 'lfsr':
+            # a request (or a seed) is being handed over in this very cycle: ready cannot claim
+            # that the number asked for has been produced
+            exp_ready = 0
+            note = note or 'in_the_cycle_of_the_pulse'
         hist = []
         if model.nloads > 1:
             hist.append('hist:reseeded')
